@@ -87,17 +87,18 @@ type Ctx struct {
 	sfiles    []*os.File
 
 	// guarded-call state read by the watchdog goroutine
-	mu        sync.Mutex
-	active    atomic.Bool
-	callSeq   atomic.Int64 // incremented at every guarded call
-	callKey   atomic.Value // string
-	callNum   atomic.Int64 // numeric suffix of the key (-1: none); see CallN
-	callSoft  atomic.Bool  // the call in progress may legitimately be slow (exponential-time function on a large input)
-	budgetNs  int64
-	budgetCur atomic.Int64 // budget of the current unit (ns)
-	maxCharge atomic.Int64 // largest CPU time charged to one guarded call so far (ns)
-	unitStart atomic.Int64 // process CPU ns when the current unit began (0: no unit running)
-	unitLimit int64        // CPU ns a whole unit (library + harness) may use before it is abandoned as inconclusive
+	mu                       sync.Mutex
+	active                   atomic.Bool
+	callSeq                  atomic.Int64 // incremented at every guarded call
+	callKey                  atomic.Value // string
+	callNum                  atomic.Int64 // numeric suffix of the key (-1: none); see CallN
+	softCPU, softAtUnitStart atomic.Int64 // CPU charged to calls that may legitimately be slow (total / at the start of the unit)
+	callSoft                 atomic.Bool  // the call in progress may legitimately be slow (exponential-time function on a large input)
+	budgetNs                 int64
+	budgetCur                atomic.Int64 // budget of the current unit (ns)
+	maxCharge                atomic.Int64 // largest CPU time charged to one guarded call so far (ns)
+	unitStart                atomic.Int64 // process CPU ns when the current unit began (0: no unit running)
+	unitLimit                int64        // CPU ns a whole unit (library + harness) may use before it is abandoned as inconclusive
 }
 
 type stopSentinel struct{}
@@ -263,6 +264,9 @@ func (c *Ctx) watchdog() {
 		seq := c.callSeq.Load()
 		if c.active.Load() && seq == lastSeq {
 			charged += now - lastCPU
+			if c.callSoft.Load() {
+				c.softCPU.Add(now - lastCPU)
+			}
 			if charged > c.maxCharge.Load() {
 				c.maxCharge.Store(charged)
 			}
@@ -297,6 +301,15 @@ func (c *Ctx) watchdog() {
 			var rss uint64
 			if !over {
 				rss = rssBytes()
+			}
+			soft := c.softCPU.Load() - c.softAtUnitStart.Load()
+			if (over && soft > (now-us)/2) || (now-us > c.unitLimit/4 && soft > (now-us)/10*9) {
+				// more than half of the unit's CPU went into library calls that may legitimately be slow
+				// (CallSlowOK): the tree under test is slow on this kind of input, which is not a verdict and not a
+				// failure of the harness either
+				c.write(Rec{T: "slow", Unit: c.curUnit, Key: "unit " + c.curUnit + " (most of its CPU inside calls that may legitimately be slow)", CPU: float64(now-us) / 1e9})
+				c.flush()
+				os.Exit(ExitSlow)
 			}
 			if over || rss > 12<<30 {
 				c.write(Rec{T: "unit_budget", Unit: c.curUnit, CPU: float64(now-us) / 1e9, V: int64(rss), Msg: "unit abandoned: harness CPU or memory limit exceeded"})
@@ -353,6 +366,7 @@ func (c *Ctx) Unit(name string, f func()) {
 	c.write(Rec{T: "begin", Unit: name, Seq: seq})
 	c.flush()
 	t0 := time.Now()
+	c.softAtUnitStart.Store(c.softCPU.Load())
 	c.unitStart.Store(processCPU() | 1)
 	defer c.unitStart.Store(0)
 	ok := func() (ok bool) {
